@@ -464,6 +464,13 @@ class LDMService:
         """
         with self._lock:
             self.data_consumer_its_aid.discard(its_aid)
+            # The consumer's subscriptions end with its registration
+            for subscription in [
+                s for s in self.subscriptions
+                if s.subscription_request.application_id == its_aid
+            ]:
+                self.subscriptions.remove(subscription)
+                self.last_checked_subscriptions_time.pop(subscription, None)
 
     def delete_subscription(self, subscription_id: int) -> bool:
         """
